@@ -243,7 +243,54 @@ class Conds:
                         lits |= self._bool_literals(tr, truth, depth + 1)
                     sets.append(lits)
                 return join_literal_sets(sets)
-        return self.edge_literals(a, s, depth)
+        base = self.edge_literals(a, s, depth)
+        more = self._variant_phi_literals(a, s, base)
+        return (base | more) if more else base
+
+    def _variant_phi_literals(self, a, s, base):
+        """switch on the discriminant of a local that is BUILT as an enum aggregate in several blocks (an inlined helper's
+        `Some(x)` / `None` results, `if c { Some(v) } else { None }`): taking the edge of variant V means control came
+        through a block that built V, so whatever holds at every such block holds here as well."""
+        t = self.body.blocks[a]["term"]
+        p = mir.op_place(t["discr"])
+        if p is None or p["proj"]:
+            return None
+        src = None
+        for (bi, si, d) in self.d.whole.get(p["l"], []):
+            if d[0] == "assign" and d[1]["k"] == "discr":
+                src = d[1]["p"]
+        if src is None or [e for e in src["proj"] if e[0] != "deref"]:
+            return None
+        names = None
+        for l in base:
+            if l[0] == "variant":
+                names = l[2]
+        if not names:
+            return None
+        # follow whole-local copies/moves back to the local that is assigned the aggregates
+        L = src["l"]
+        for _ in range(4):
+            ds = self.d.whole.get(L, [])
+            if len(ds) == 1 and ds[0][2][0] == "assign" and ds[0][2][1]["k"] == "use":
+                pp = mir.op_place(ds[0][2][1]["op"])
+                if pp is not None and not pp["proj"]:
+                    L = pp["l"]
+                    continue
+            break
+        ds = self.d.whole.get(L, [])
+        if len(ds) < 2 or L in self.d.partial or L in self.d.mut_borrowed:
+            return None
+        sets = []
+        for (bi, si, d) in ds:
+            if not (d[0] == "assign" and d[1]["k"] == "agg" and d[1].get("ak") == "adt" and d[1].get("variant")):
+                return None
+            if d[1]["variant"] in names:
+                if bi not in self._in:
+                    return None
+                sets.append(set(self._in[bi]))
+        if not sets:
+            return None
+        return join_literal_sets(sets)
 
     def _copy_root(self, l):
         # follow `_20 = copy _12`
